@@ -36,21 +36,24 @@ static std::string one(const Aut& a0, const Aut& b0, bool down, bool rec, bool o
 	catch (...) { return "Enonstd"; }
 }
 
+static int LIMIT_MS = 2000;     // per-case limit; a selection that exceeds it is inconclusive ("T"), never a violation (speed is not a property)
+
 int main() {
+	if (const char* e = std::getenv("VERIF_CALL_LIMIT_MS")) LIMIT_MS = std::atoi(e);
 	std::string line;
 	while (std::getline(std::cin, line)) {
 		guarded([&]() {
 			Toks t(line); t.expect("incl"); TA a = readTA(t); TA b = readTA(t);
 			Aut A = mkAut(a), B = mkAut(b);
+			static const bool DOWN[8] = {0,0,1,1,1,1,1,1}, REC[8] = {0,0,0,0,1,1,1,1}, OPT[8] = {0,0,0,0,0,1,0,1}, SIM[8] = {0,1,0,1,0,0,1,1};
 			std::ostringstream os; os << "V";
-			os << ' ' << one(A, B, false, false, false, false);
-			os << ' ' << one(A, B, false, false, false, true);
-			os << ' ' << one(A, B, true, false, false, false);
-			os << ' ' << one(A, B, true, false, false, true);
-			os << ' ' << one(A, B, true, true, false, false);
-			os << ' ' << one(A, B, true, true, true, false);
-			os << ' ' << one(A, B, true, true, false, true);
-			os << ' ' << one(A, B, true, true, true, true);
+			std::string all = forked([&]() { std::ostringstream o; for (int s = 0; s < 8; ++s) o << ' ' << one(A, B, DOWN[s], REC[s], OPT[s], SIM[s]); return o.str(); }, LIMIT_MS);
+			if (all == "@TIMEOUT" || all == "@CRASH" || all == "@EXC") {     // find out which selection it was
+				for (int s = 0; s < 8; ++s) {
+					std::string r = forked([&]() { return one(A, B, DOWN[s], REC[s], OPT[s], SIM[s]); }, LIMIT_MS);
+					os << ' ' << (r == "@TIMEOUT" ? "T" : r == "@CRASH" ? "Ecrash" : r == "@EXC" ? "Enonstd" : r);
+				}
+			} else os << all;
 			Aut sa = A, sb = B;
 			VATA::AutBase::StateType n = VATA::AutBase::SanitizeAutsForInclusion(sa, sb);
 			os << " S " << showTA(obsAut(sa)) << ' ' << showTA(obsAut(sb)) << ' ' << n;
